@@ -51,7 +51,14 @@ type pgServer struct {
 	db    *sql.DB
 	dir   string
 	cases int
+	// leaks: transactions left open by clients that went away. The pgsql
+	// front-end never cancels them (session.Close does not look at s.tx), each
+	// keeps a snapshot of every index it touched, and an index refuses the
+	// 101st snapshot ("max active snapshots limit reached").
+	leaks int
 }
+
+var pgProxy func(port int) int
 
 var (
 	pgMu  sync.Mutex
@@ -72,12 +79,16 @@ func startPg() (*pgServer, error) {
 		return nil, fmt.Errorf("initialize: %w", err)
 	}
 	go srv.Start()
-	db, err := sql.Open("postgres", fmt.Sprintf("host=127.0.0.1 port=%d sslmode=disable user=immudb dbname=defaultdb password=immudb", srv.PgsqlSrv.GetPort()))
+	port := srv.PgsqlSrv.GetPort()
+	if pgProxy != nil {
+		port = pgProxy(port)
+	}
+	db, err := sql.Open("postgres", fmt.Sprintf("host=127.0.0.1 port=%d sslmode=disable user=immudb dbname=defaultdb password=immudb", port))
 	if err != nil {
 		return nil, err
 	}
 	db.SetMaxIdleConns(0)
-	deadline := time.Now().Add(60 * time.Second)
+	deadline := time.Now().Add(300 * time.Second)
 	for {
 		err = db.Ping()
 		if err == nil {
@@ -103,7 +114,7 @@ func (p *pgServer) stop() {
 func pgFixture() (*pgServer, error) {
 	pgMu.Lock()
 	defer pgMu.Unlock()
-	if pgCur != nil && pgCur.cases >= 80 {
+	if pgCur != nil && (pgCur.cases >= 80 || pgCur.leaks >= 50) {
 		pgCur.stop()
 		pgCur = nil
 	}
@@ -140,7 +151,7 @@ type pgHarness struct {
 }
 
 func (h *pgHarness) logf(format string, args ...any) {
-	h.trace = append(h.trace, fmt.Sprintf(format, args...))
+	h.trace = append(h.trace, strings.ReplaceAll(fmt.Sprintf(format, args...), "\x00", `\x00`))
 }
 
 func (h *pgHarness) failf(format string, args ...any) {
@@ -459,6 +470,7 @@ func (h *pgHarness) end(s *pgSession, how string) {
 		h.logf("s%d: connection closed => %v", s.id, err)
 		s.conn.Close()
 		h.c.Label("end-connection-closed")
+		h.p.leaks++
 		h.abort(s, "abandon")
 		h.connect(s)
 	}
@@ -662,13 +674,13 @@ func TestPgWirePrograms(t *testing.T) {
 		vk.AddLabel("TestPgWirePrograms/NOT-RUN-no-loopback-sockets", 1)
 		t.Skip(pgNotRun)
 	}
-	vk.Check(t, 160, 5000, func(rt *rapid.T, c *vk.Case) {
+	vk.Check(t, 160, 4000, func(rt *rapid.T, c *vk.Case) {
 		p, err := pgFixture()
 		if err != nil {
 			rt.Fatalf("pg fixture: %v", err)
 		}
 		h := &pgHarness{rt: rt, c: c, p: p, committed: newWorld(), ghosts: map[string]bool{}, flags: map[string]bool{}}
-		h.g = &gen{rt: rt, c: c, prefix: fmt.Sprintf("p%d", pgSeq), noUnique: true,
+		h.g = &gen{rt: rt, c: c, prefix: fmt.Sprintf("p%d", pgSeq), noUnique: true, noNUL: true,
 			// the pgsql front-end turns CREATE TABLE into CREATE TABLE IF NOT EXISTS
 			skipFail: map[string]bool{"fail-table-exists": true},
 			types: []sqlgen.Type{sqlgen.TInt, sqlgen.TInt, sqlgen.TVarchar, sqlgen.TVarchar, sqlgen.TBool}}
@@ -680,6 +692,9 @@ func TestPgWirePrograms(t *testing.T) {
 			// leave nothing behind: close the sessions, drop the tables
 			for _, s := range h.sess {
 				if s.conn != nil {
+					if s.st != nil {
+						h.p.leaks++
+					}
 					s.conn.Raw(func(dc any) error { return dc.(interface{ Close() error }).Close() })
 					s.conn.Close()
 				}
